@@ -66,7 +66,7 @@ func VerifLemma_C09E_CommitStoreInvalidFile() {
 	// known finding: `return nil, err` with err == nil for a parseable document whose fields are invalid or whose
 	// digest type differs from the key's -> a nil Commit is reported as found
 	nilCommitClass := fileKind == 0 && (!fieldsValid || doc.Digest == otherTypeDigest)
-	if verifKnown("F8-commitstore-invalid-file-nil-commit", nilCommitClass) {
+	if verifKnown("F9-commit-store-nil-commit", nilCommitClass) {
 		return
 	}
 	for _, c := range found {
